@@ -149,12 +149,14 @@ def main(ctx: Ctx):
     # ---- results / exceptions that cannot be rebuilt by the parent; kill while sending a big result
     sess = inject.Session()
     try:
-        for prog in ('threadRun', 'processRun', 'remoteRun'):
-            mod, clsname, kind, _ = inject.KINDS[prog]
+        for prog in ('threadRun', 'processRun', 'remoteRun', 'pthreadRun', 'pprocessRun', 'premoteRun'):
+            mod, clsname, kind, pers = inject.KINDS[prog]
             cls = getattr(__import__(mod, fromlist=[clsname]), clsname)
             kw = {'host': sess.addr(), 'main_path': ''} if kind == 'remote' else {}
             sess.write_conf(None)
-            w = cls(TG.t_two, **kw)
+            w = cls(TG.t_two_item if pers else TG.t_two, **kw)
+            if pers:
+                w.enqueue(1)
             watchdog(lambda: w.wait(10), 20)
             obs = inject.observe(w)
             ctx.case(('undecodable', prog), sample={'case': 'exception class needing ctor args', 'prog': prog, 'obs': obs[0]})
